@@ -6,7 +6,9 @@
 // mixes deliveries (StoreManager.Deliver or a real SMTP session) with API calls issued as raw
 // HTTP requests and through pkg/rest/client.  The oracle is M-mailbox (internal/model): every
 // response is compared with the model, and after every call the complete store is read back
-// through storage.Store and compared with the model.
+// through storage.Store and compared with the model.  Most steps are strictly sequential; the
+// exception is the in-flight step (inflight.go): one mutating API call issued while a delivery to
+// the same mailbox is blocked in the middle of its content.
 package c14
 
 import (
@@ -55,6 +57,11 @@ func init() {
 			"exported method of pkg/rest/client incl. the MessageHeader/Message convenience methods; ids existing (any position), removed, " +
 			"never-existed, 'latest', ids with URL-significant characters; 1 lookup in 6 uses a non-canonical spelling of the name " +
 			"(letter case, +ext, @domain). Oracle: M-mailbox; response vs model, then full store read-back vs model after every call. " +
+			"About 1 step in 25 is an API call while a delivery to the same mailbox is in flight (added after seeded change C14-10): " +
+			"Store.AddMessage runs in a goroutine with a reader that blocks in the middle of the content until released, one mutating call " +
+			"(REST or Go client: DELETE message, PATCH seen, DELETE mailbox) is issued meanwhile and is never waited for before the release; " +
+			"afterwards the mailbox must be what some sequential order of the two gives (acknowledged effect present, new message present or, " +
+			"for a purge ordered second, gone), read back through the store and through the API. " +
 			"A history is non-trivial when >=1 API call was judged against >=1 stored message; distinct by (setup, naming, set of " +
 			"(interface, operation, id class, name class, outcome)).",
 		Assumptions: []string{
@@ -64,6 +71,8 @@ func init() {
 			"PATCH/DELETE with the id 'latest' is not specified by the property: either 404 without effect or 200 with the effect on the newest message is accepted (counted)",
 			"ids are outputs of the server and never contain '/', '%' or dot segments: never-existed ids with '/' are only sent in shapes that cannot alias another route; ids with '%' or '/' are not passed to the Go client (it does not escape ids); '.' and '..' are path syntax, not ids",
 			"PATCH bodies are always {\"seen\":true}",
+			"an in-flight delivery is a Store.AddMessage call whose content reader is blocked by the harness after half of the bytes; a store is free to serialise the API call behind it (the file store does) or to serve it at once (the mem store does): which of the two happened is counted, never judged, and the 10 ms the harness lets the call run before it releases the delivery only shape the schedule",
+			"in-flight steps address only ids that exist or do not exist in every order of the two operations (no id borrowed from another mailbox, no 'latest'), and never a mailbox whose name contains '/'",
 			"every failure of a request whose mailbox name contains '/' is filed under the single key " + SlashKey + " (known defect D13)",
 		},
 		MinObs: func(tier string) map[string]int64 {
@@ -73,6 +82,17 @@ func init() {
 				"noncanonical_lookups": 100, "names_with_url_chars": 200, "slash_name_histories": 10,
 				"id:existing-not-latest": 100, "id:removed": 50, "id:never": 50, "id:latest": 50, "id:urlchars": 50,
 				"panic_log_checks": 2000,
+				// in-flight steps (healthy quick run: about 1950 steps, 3200 follow-up reads, every mem-store call answered during the delivery)
+				"inflight_steps": 500, "inflight_followup_reads": 800, "inflight_order:same": 300,
+				"inflight_answered_during_delivery": 100,
+			}
+			for _, op := range inflightOps {
+				m["inflight:"+op] = 50
+			}
+			for _, b := range backends {
+				for _, p := range basePaths {
+					m["inflight_setup:"+setupName(b, p)] = 100
+				}
 			}
 			for _, b := range backends {
 				for _, p := range basePaths {
@@ -256,6 +276,8 @@ func (h *hist) step() {
 		h.deliver()
 	case h.r.Chance(8, 100):
 		h.storeSideRemoval()
+	case h.r.Chance(6, 100):
+		h.inflight()
 	default:
 		h.apiCall()
 	}
